@@ -133,8 +133,10 @@ public:
 		_sign = (0x8000000000000000 & rhs);  // 1 is negative, 0 is positive
 		if (_sign) {
 			// process negative number: process 2's complement of the input
-			_scale = int(sw::universal::find_msb(-rhs)) - 1;
-			uint64_t _fraction_without_hidden_bit = uint64_t(_scale == 0 ? 0 : (-rhs << (64 - _scale)));
+			// negate in unsigned arithmetic: -rhs is undefined for the most negative value
+			const uint64_t magnitude = 0ull - static_cast<uint64_t>(rhs);
+			_scale = int(sw::universal::find_msb(magnitude)) - 1;
+			uint64_t _fraction_without_hidden_bit = uint64_t(_scale == 0 ? 0 : (magnitude << (64 - _scale)));
 			_fraction = copy_integer_fraction<fbits>(_fraction_without_hidden_bit);
 			//take_2s_complement();
 			_nrOfBits = fbits;
